@@ -573,9 +573,9 @@ theorem queryTargets_spec (a : Pid) : ∀ (ts : List Pid) (w : WorkerSt),
         · exact List.mem_cons_of_mem _ (ih.2.2 k hk)
         · simp
 
-theorem RInv.handleCmd {s : Sys} (h : RInv s) (emptyWake : WorkerSt → Pid → WorkerSt)
-    (hew : ∀ w p, SameProcs w (emptyWake w p)) (i : Wid) {c : Cmd}
-    (hc : CmdOK s.env.router s.prog.length (known s i) i c) : RInv (handleCmdWith emptyWake s i c) := by
+theorem RInv.handleCmd {s : Sys} (h : RInv s) (R : Rules)
+    (hew : ∀ w p, SameProcs w (R.emptyWake w p)) (i : Wid) {c : Cmd}
+    (hc : CmdOK s.env.router s.prog.length (known s i) i c) : RInv (handleCmdWith R s i c) := by
   cases c with
   | misc => exact h
   | start p => exact hc.elim
@@ -669,7 +669,7 @@ theorem RInv.handleCmd {s : Sys} (h : RInv s) (emptyWake : WorkerSt → Pid → 
     simp only []
     split
     · exact { h.setWk_same i (SameProcs.applyResults a rs _) with }
-    · exact { h.setWk_same i (hew _ a) with }
+    · exact { h.setWk_same i ((SameProcs.applyResults a rs _).trans (hew _ a)) with }
   | getResult req p =>
     unfold handleCmdWith
     simp only []
@@ -680,14 +680,14 @@ theorem RInv.handleCmd {s : Sys} (h : RInv s) (emptyWake : WorkerSt → Pid → 
       · exact h.pushEvt i _ trivial
       · exact h.setWk_same i (SameProcs.of_eq rfl rfl)
 
-theorem RInv.cmdStep1 {s : Sys} (h : RInv s) (emptyWake : WorkerSt → Pid → WorkerSt)
-    (hew : ∀ w p, SameProcs w (emptyWake w p)) (i : Wid) : RInv (cmdStep1With emptyWake s i) := by
+theorem RInv.cmdStep1 {s : Sys} (h : RInv s) (R : Rules)
+    (hew : ∀ w p, SameProcs w (R.emptyWake w p)) (i : Wid) : RInv (cmdStep1With R s i) := by
   unfold cmdStep1With
   split
   · exact h
   · rename_i c rest hq
     obtain ⟨h1, hc⟩ := h.popCmd hq
-    exact h1.handleCmd emptyWake hew i hc
+    exact h1.handleCmd R hew i hc
 
 /-! ### check_completed_processes -/
 
